@@ -5,7 +5,7 @@ namespace VR
 open Verilog Circuit
 
 def relStep (c : Circuit) (n : Name) : Circuit :=
-  if n.startsWith "\\" then c.relabelOne n (n ++ " ") else c
+  if n.startsWith "\\" && !(c.ty? n == some "bb_input" || c.ty? n == some "bb_output") then c.relabelOne n (n ++ " ") else c
 
 def bbInStep (ord : Ord) (cc : Circuit) (inst : Name) (io : List (Name × Option Expr)) (n : Name) :
     E (List (Name × Option Expr)) :=
@@ -65,7 +65,12 @@ theorem relFold_id (c : Circuit) : ∀ (l : List Name), (∀ n ∈ l, ¬ n.start
     rw [List.foldl_cons]
     have : relStep c n = c := by
       unfold relStep
-      rw [if_neg (h n (by simp))]
+      have hn : n.startsWith "\\" = false := by
+        cases hb : n.startsWith "\\" with
+        | false => rfl
+        | true => exact absurd hb (h n (by simp))
+      rw [hn]
+      simp
     rw [this]
     exact relFold_id c l (fun m hm => h m (by simp [hm]))
 
